@@ -11,7 +11,8 @@
     [Known_wrong] shows each of them is indeed accepted with the wrong value, and [C10] is the
     property for every other input. *)
 From Coq Require Import NArith ZArith.
-From SFV Require Import Base.F64 Api.IntDeser Base.F64Proofs Api.IntDeserProofs.
+From SFV Require Import Base.F64 Api.IntDeser Base.F64Proofs Api.IntDeserProofs
+  Base.RsPrelude Api.IntDeserExt Gen.IntDeserGen Api.IntDeserGenEq.
 
 (** The excluded inputs: the target is 64 bits wide and the number is exactly MAX + 1. *)
 Definition Known (W : N) (t : intty) (bits : N) : Prop :=
@@ -76,3 +77,18 @@ Proof.
   repeat split; try (vm_compute; reflexivity); intros [B X];
     vm_compute in B, X; (discriminate B || discriminate X).
 Qed.
+
+(** * [deser_int] IS the code (tie by translation, T8)
+
+    [Gen/IntDeserGen.v] is regenerated on every run: the body of [impl_deserialize_for_int!] in api/src/read.rs is
+    instantiated textually for each type the macro is invoked with ([$ty] := i8 ... isize, what the macro expander
+    does) and translated by translators/rs2v.  For every target type, every 64-bit pattern and both pointer widths
+    the translated Rust computes [deser_int] ([gen_deser t] selects the instantiation for [t]; a value that is not a
+    number is [Error::InvalidType]). *)
+Theorem C10_code_number : forall W trap t bits,
+  gen_deser t W trap (mkValue (Some (decode bits))) = GOk (res_of (deser_int W t bits)).
+Proof. exact gen_deser_number. Qed.
+
+Theorem C10_code_not_a_number : forall W trap t,
+  gen_deser t W trap (mkValue None) = GOk (RErr APIERR_InvalidType).
+Proof. exact gen_deser_not_a_number. Qed.
